@@ -49,9 +49,19 @@ class SSys(object):
     def model_arch(self, which):
         return {'A': self.mA, 'B': self.mB}.get(which)
 
+    def _which(self, a):
+        return 'A' if a is self.A else 'B' if a is self.B else 'NULL' if type(a).__name__ == 'null_archive' else '?'
+
     def state_key(self):
-        f = lambda d: tuple(sorted(d.items()))
-        return (f(self.mc), f(self.mA), f(self.mB), self.attached, self.parked,
+        """product of model state and implementation state: the implementation half holds what the cache
+        is bound to *and what it has parked* (cache.__swap__), which no contents comparison shows"""
+        f = lambda d: tuple(sorted(d.items(), key=repr))
+        c = self.c
+        try:
+            impl = (f(dict(dict.items(c))), self._which(c.__archive__), self._which(c.__swap__), bool(c.archived()))
+        except Exception as e:
+            impl = ('ERR', type(e).__name__)
+        return (f(self.mc), f(self.mA), f(self.mB), self.attached, self.parked, impl,
                 archmc.concrete_state(self.backend, self.root, self.A))
 
 
